@@ -51,6 +51,19 @@ class DbWorld:
     pass
 
 
+def _drop_fast_path():
+    """Every armi Operator makes itself a fresh scratch directory under /tmp/.armi and only the last one is removed at exit;
+    remove the one of the operator just used when it is empty (its database has been moved or deleted by then)."""
+    try:
+        from armi import context
+
+        fp = context.getFastPath()
+        if os.path.basename(os.path.dirname(fp)) == ".armi":
+            os.rmdir(fp)
+    except OSError:
+        pass
+
+
 class DbAdapter:
     """World = the rig's reactor with up to NOBJ_MAX assemblies (object k = assembly k with its single block), the Database being
     written (A) and the other file (B) in a private working directory."""
@@ -174,6 +187,7 @@ class DbAdapter:
         finally:
             os.chdir(self.home)
             shutil.rmtree(w.dir, ignore_errors=True)
+            _drop_fast_path()
 
     # -- actions -----------------------------------------------------------------------------------------
     def apply(self, w, a):
@@ -758,6 +772,7 @@ class RunAdapter:
                     out.setdefault("notes", []).append("database handle still open after the run")
             finally:
                 o.removeAllInterfaces()
+                _drop_fast_path()
         return out
 
     def project_file(self, wd, fn):
@@ -1355,7 +1370,7 @@ def selftest():
         ("close leaves the file in the fast path (runs)", lambda: patched(D, "close", close_keeps_fast_path)),
         ("prepRestartRun merges one node too many", V(DI, "prepRestartRun", "self._db.mergeHistory(inputDB, startCycle, startNode)", "self._db.mergeHistory(inputDB, startCycle, startNode + 1)")),
         ("prepRestartRun does not merge the history", V(DI, "prepRestartRun", "self._db.mergeHistory(inputDB, startCycle, startNode)", "pass")),
-        ("writeDBEveryNode writes under the label 'EOL' at the last node", V(DI, "writeDBEveryNode", "self._db.writeToDB(self.r)", "self._db.writeToDB(self.r, 'x' if self.r.p.timeNode else None)")),
+        ("writeDBEveryNode stores every node but the first of a cycle under a label", V(DI, "writeDBEveryNode", "self._db.writeToDB(self.r)", "self._db.writeToDB(self.r, 'x' if self.r.p.timeNode else None)")),
     ]
     only = os.environ.get("C06_SELFTEST", "")  # "db" / "run": one half only
     pick = os.environ.get("C06_MUTANT", "")    # substring of a mutant's label: only those
